@@ -106,18 +106,12 @@ class Env:
         self.default_answer = b"20 text/gemini\r\nhello"
         self.refuse = set()           # (host, port) that refuse the TCP/TLS connection
         self.verified = {}            # id(transport) -> bool
-        c = GeminiClient.__new__(GeminiClient)
-        c.timeout = 30
-        c.max_redirects = 5
-        c.verify_ssl = False
-        c.trust_on_first_use = tofu_on
-        c.ssl_context = None
+        # the real constructors run (sqlite3 is already the model, so the schema statement goes there)
+        import pathlib
+        c = GeminiClient(timeout=30, max_redirects=5, verify_ssl=False, trust_on_first_use=tofu_on,
+                         tofu_db_path=pathlib.Path("model.db"))
         if tofu_on:
-            t = TOFUDatabase.__new__(TOFUDatabase)
-            t.db_path = "model.db"
-            c.tofu_db = self._wrap(t)
-        else:
-            c.tofu_db = None
+            c.tofu_db = self._wrap(c.tofu_db)
         self.client = c
         self.current = None
 
